@@ -866,6 +866,7 @@ def run_ftp(eng, tier, rng, deep):
     eng.check([("line", (l, year)) for l in every], "LIST-lines")
     # faithfulness of well-formed lines: what the line states is what comes back
     faithful_lines(eng, rng, year, 3000 if q else 60000)
+    oracle_list_permissions(eng, rng)
     # --- parse(lines): blank lines skipped, garbage skipped, order kept
     lists = []
     for _ in range(3000 if q else 60000):
@@ -959,6 +960,59 @@ def faithful_lines(eng, rng, year, n):
         expect.append(want)
     eng.rep.sample({"line": cases[0][1][0], "parsed": impl_line(cases[0][1][0])})
     eng.check(cases, "LIST-from-parts", expect)
+
+
+def independent_perm_names(perms):
+    """the permissions a 9-character `ls -l` field states (written without fs.permissions)"""
+    names = []
+    for who, chunk in zip("ugo", (perms[0:3], perms[3:6], perms[6:9])):
+        if chunk[0] == "r":
+            names.append(who + "_r")
+        if chunk[1] == "w":
+            names.append(who + "_w")
+        x = chunk[2]
+        if x in "xst":
+            names.append(who + "_x")
+        if x in "sS" and who == "u":
+            names.append("setuid")
+        if x in "sS" and who == "g":
+            names.append("setguid")
+        if x in "tT" and who == "o":
+            names.append("sticky")
+    return sorted(names)
+
+
+def oracle_list_permissions(eng, rng):
+    """'for every well-formed line return exactly the ... permissions ... it states': the
+    permission field decoded independently vs what fs._ftp_parse returns"""
+    from fs import _ftp_parse as F
+
+    rep = eng.rep
+    fields = [p for p in perm_strings()]
+    rng.shuffle(fields)
+    bad_special = bad_plain = 0
+    first = None
+    for perms in fields[:600]:
+        line = "-%s   1 u g 10 Jan 01 2020 f" % perms
+        info = F.parse_line(line)
+        rep.evaluations += 1
+        got = sorted((info.raw if hasattr(info, "raw") else info).get("access", {}).get("permissions", [])) if info is not None else None
+        want = independent_perm_names(perms)
+        if got != want:
+            special = any(c in perms for c in "sStT")
+            if special:
+                bad_special += 1
+                first = first or (line, got, want)
+            else:
+                bad_plain += 1
+                rep.violation({"kind": "line", "arg": [line, current_year()], "impl": got, "expected": want},
+                              "LIST line %r: permissions %r, the field states %r" % (line, got, want), found_input=True,
+                              signature="C20/line/unfaithful/permissions")
+    rep.extra["list_special_permission_fields_wrong"] = bad_special
+    if first is not None:
+        rep.violation({"kind": "line", "arg": [first[0], current_year()], "impl": first[1], "expected": first[2]},
+                      "LIST line %r: permissions %r, the field states %r" % first, found_input=True,
+                      signature="C20/line/unfaithful/permissions-special-bits")
 
 
 def oracle_garbage_skipped(eng, lists):
